@@ -95,6 +95,8 @@ def c12(c):
     c.assumptions += ["the round-trip theorems cover any list of uncompressed or (under the law 'reading the decompressor to its end gives the message') compressed "
                       "messages written by write_message, with ping/pong frames inserted anywhere, fed in any segmentation to an idle receiver whose "
                       "MessageLengthLimit the messages respect and whose ReadLimit is off; theorem hypotheses: fewer than 2^62 payload bytes in total"]
+    c.assumptions += ["state shared BETWEEN connections (sync.Pools of flate readers/writers, the pooled body allocator) is outside the single-connection model and "
+                      "theorems; it is covered by the concurrent tier of cmd/wscodec (parallel pairs, contents deterministic per seed, goroutine interleaving not)"]
     c.assumptions += ["queued (asynchronous send-queue) write mode with a bounded queue: the held-socket tier of cmd/wsconc (the C14 component: real websocket.Conn, admission "
                       "grid bound x compression level x payload class x lengths around frame multiples x room) is run for C12 as well: a WriteMessage that "
                       "returned nil must appear on the wire as one whole frame sequence, a refused one must leave nothing (otherwise the peer cannot deliver "
@@ -141,7 +143,13 @@ MANIFEST = {
              "sender and receiver over an in-memory connection (both roles, compression on/off and all levels, frame limits 1..1 MiB, lengths 0/1/125-127/65535-65537/"
              "around the frame limit/MiBs, random, compressible and UTF-8 content, pings between messages and control frames spliced between fragments, all compositions of "
              "short wires, byte-wise, single cuts, random cuts); the sender's wire bytes and the receiver's events and state are compared with the model; oracle: "
-             "delivered == sent (type, payload, once, in order), pings answered, and the wire decodes with an independent decoder and compress/flate.",
+             "delivered == sent (type, payload, once, in order), pings answered, and the wire decodes with an independent decoder and compress/flate. "
+             "Concurrent tier (every run, after the sequential part): 8 (thorough: 10) independent connections run in parallel goroutines, each sending 70 (200) "
+             "messages in both directions (server->client and client->server) with mixed sizes incl. ~50 KB compressible ones, different compression levels per pair "
+             "and side, compression off on some pairs, ReleasePayload on/off, the library's reader behind the public decompressor hook on some, shared and "
+             "per-engine body allocators; every message must be delivered exactly once with its type and payload (signatures concurrent-pairs-payload/-lost/"
+             "-duplicated/-type/-panic/-stuck): this crosses the package-level state the codec shares between connections (flate reader pool, flate writer pools "
+             "per level, the default BodyAllocator).",
         note="The theorems are about the model; DEFLATE (law assumed: reading the decompressor's answers to the end gives the message), the unrolled XOR loop, ReadLimit > 0 "
              "(segmentation-dependent by design) and connections mixing compressed and uncompressed messages are outside the proof and decided by the differential run and "
              "the oracle. Found on the pinned tree and fixed in /repo (D29 control frames fragmented when MaxWebsocketFramePayloadSize < payload, D30 control frames counted "
